@@ -197,7 +197,35 @@ func flusherFor(rng *rand.Rand, kind string) string {
 	return []string{"n", "o", "o"}[rng.Intn(3)]
 }
 
+// a reply to a one-register read whose register value happens to be the CRC of the three bytes before it: the first
+// five bytes look like a complete checksummed frame (they are not an exception: the function byte has no error bit)
+func genCrcLookalike(rng *rand.Rand, shard, nshards int, emit emitter) {
+	i := 0
+	for _, kind := range []string{"r", "s"} {
+		for _, fc := range []int{3, 4} {
+			for rep := 0; rep < 3; rep++ {
+				i++
+				if !mine(i, shard, nshards) {
+					continue
+				}
+				unit, addr := u8(rng), u16(rng)
+				c := crc16([]byte{byte(unit), byte(fc), 2})
+				ex := exchange{kind: kind, fc: fc}
+				ex.reqSpec = fmt.Sprintf("%d,%d,%d,%d,%d,0,0,-,-", fc, 0, unit, addr, 1)
+				ex.reply = withCRC([]byte{byte(unit), byte(fc), 2, byte(c), byte(c >> 8)})
+				fl := flusherFor(rng, kind)
+				R := ex.reply
+				emit(doOp(ex, 0, fl, R, "d:"+hx(R)))
+				emit(doOp(ex, 0, fl, R, "d:"+hx(R[:5])+";d:"+hx(R[5:])))
+				emit(doOp(ex, 0, fl, R, "d:"+hx(R[:3])+";d:"+hx(R[3:5])+";t;d:"+hx(R[5:])))
+				emit(doOp(ex, 1, fl, R, "d:"+hx(R[:5])+";t;d:"+hx(R[5:6])+";d:"+hx(R[6:])))
+			}
+		}
+	}
+}
+
 func genC07(tier string, rng *rand.Rand, shard, nshards int, emit emitter) {
+	genCrcLookalike(rng, shard, nshards, emit)
 	// the constructors without configuration, against a loopback peer (request types whose expected reply length is
 	// exact, so that no call has to wait for the 2 s default timeout)
 	reps := 2
@@ -352,7 +380,39 @@ func genC08(tier string, rng *rand.Rand, shard, nshards int, emit emitter) {
 	genFaults(tier, rng, shard, nshards, 0, emit)
 }
 
+// genPaced: a device that trickles: a prefix of the reply in eight pieces, each a third of the total read timeout after
+// the read for it was started, then silence. The call ends with the timeout error when the TOTAL read timeout has
+// passed (about three pieces in), not one read timeout after the last byte
+func genPaced(rng *rand.Rand, shard, nshards int, hooks int, emit emitter) {
+	i := 0
+	for _, kind := range clientKinds {
+		for _, fc := range []int{3, 4, 1, 16, 23} {
+			i++
+			if !mine(i, shard, nshards) {
+				continue
+			}
+			ex := buildExchange(rng, kind, fc, 3)
+			R := ex.reply
+			if len(R) < 16 {
+				ex = buildExchange(rng, kind, 3, 1)
+				R = ex.reply
+			}
+			// eight pieces that together are a proper prefix of the reply (shorter than any length the request announces)
+			n := len(R) - 4 - rng.Intn(2)
+			parts := []string{}
+			for k := 0; k < 8; k++ {
+				a, b := k*n/8, (k+1)*n/8
+				if b > a {
+					parts = append(parts, "p:"+hx(R[a:b]))
+				}
+			}
+			emit(doOp(ex, hooks, flusherFor(rng, kind), R, strings.Join(parts, ";")))
+		}
+	}
+}
+
 func genFaults(tier string, rng *rand.Rand, shard, nshards int, hooks int, emit emitter) {
+	genPaced(rng, shard, nshards, hooks, emit)
 	i := 0
 	reps := 1
 	if tier == "thorough" {
